@@ -13,6 +13,7 @@ pub struct C05;
 
 pub fn profile() -> CProfile {
     CProfile {
+        w_stepcoop: 3,
         w_step: 30,
         w_drain: 10,
         w_newcall: 20,
